@@ -474,7 +474,13 @@ func runC04_7(c *core.Ctx) {
 						want = "nonnil"
 					}
 				default:
-					c.Violate(f.Name, "close cause "+exprStr(arg), t.call.Pos(), "(*eventloop).close is called from a function not in the cause table (local vs I/O cause cannot be classified)")
+					// a function outside the two cause tables: a literal nil (nothing failed here) and a provably non-nil
+					// error are both consistent; only an error that may be nil is wrong
+					if class == "nil" || class == "nonnil" {
+						c.Ok(f.Name, "close cause "+exprStr(arg), t.call.Pos(), "cause class "+class+" (function not in the cause tables; judged by the argument)")
+					} else {
+						c.Violate(f.Name, "close cause "+exprStr(arg), t.call.Pos(), "the close cause may be nil although it is computed from an error: OnClose would report nil for an I/O-induced close")
+					}
 					continue
 				}
 				construct := "close cause " + exprStr(arg)
